@@ -200,8 +200,32 @@ fn case_calculators(t: &mut Tape, info: &mut CaseInfo) -> Result<(), String> {
     if info.want_sample {
         info.sample = Some(json!({"map": c.spec.sample(), "target": mode_name(c.target), "difficulty": c.dspec.describe()}));
     }
-    let explicit = c.map.clone().convert(c.target, &c.dspec.mods.build(c.target)).map_err(|e| e.to_string())?;
+    // a third of the maps gets its public ar/od/cs/hp fields overwritten after decoding (the decoder clamps
+    // them, a caller editing the map need not): calculators and builder must still agree
+    let mut src = c.map.clone();
+    if t.chance(1, 3) {
+        let v = |t: &mut Tape| *t.pick(&[11.0f32, 10.5, -1.0, 15.0, -7.5, 20.0, 0.0, 10.0]);
+        if t.coin() {
+            src.ar = v(t);
+        }
+        if t.coin() {
+            src.od = v(t);
+        }
+        if t.coin() {
+            src.hp = v(t);
+        }
+        info.label("hand-edited-map-fields");
+    }
+    let explicit = src.clone().convert(c.target, &c.dspec.mods.build(c.target)).map_err(|e| e.to_string())?;
     let b = explicit.attributes().difficulty(&c.d);
+    // every way of handing the map to the builder
+    {
+        let b5 = BeatmapAttributesBuilder::from(&explicit).difficulty(&c.d);
+        same("BeatmapAttributesBuilder::from(&map) vs map.attributes()", &b5.build(), &b.build())?;
+        let b6 = BeatmapAttributesBuilder::new().map(&explicit).difficulty(&c.d);
+        same("BeatmapAttributesBuilder::new().map(&map) vs map.attributes()", &b6.build(), &b.build())?;
+        info.comparisons += 2;
+    }
     let built = b.build();
     let hw = b.hit_windows();
     same("build().hit_windows vs hit_windows()", &built.hit_windows, &hw)?;
@@ -246,11 +270,36 @@ fn case_calculators(t: &mut Tape, info: &mut CaseInfo) -> Result<(), String> {
     }
     same("new().mods().clock_rate().map(&m).<overrides>.build() vs attributes().difficulty(&D).build()", &b4.build(), &built)?;
     info.comparisons += 1;
-    let attrs = calc_for_mode(&c.d, &c.map, c.target)?;
+    let attrs = calc_for_mode(&c.d, &src, c.target)?;
+    // the same settings through the individual Performance setters (on the calculator already switched to the
+    // target mode): the stored attributes are the same
+    {
+        let mut p = super::common::perf_for_mode(&src, c.target);
+        let mut order: Vec<u8> = (0..9).collect();
+        for i in (1..order.len()).rev() {
+            let j = t.below_usize(i + 1);
+            order.swap(i, j);
+        }
+        for k in &order {
+            p = match k {
+                0 => p.mods(insp.mods.clone()),
+                1 => insp.passed_objects.map_or(p.clone(), |n| p.clone().passed_objects(n)),
+                2 => insp.clock_rate.map_or(p.clone(), |v| p.clone().clock_rate(v)),
+                3 => insp.ar.map_or(p.clone(), |v| p.clone().ar(v.value, v.with_mods)),
+                4 => insp.cs.map_or(p.clone(), |v| p.clone().cs(v.value, v.with_mods)),
+                5 => insp.hp.map_or(p.clone(), |v| p.clone().hp(v.value, v.with_mods)),
+                6 => insp.od.map_or(p.clone(), |v| p.clone().od(v.value, v.with_mods)),
+                7 => insp.hardrock_offsets.map_or(p.clone(), |v| p.clone().hardrock_offsets(v)),
+                _ => insp.lazer.map_or(p.clone(), |v| p.clone().lazer(v)),
+            };
+        }
+        same("difficulty attributes stored by Performance::<setters> vs Difficulty::calculate", &p.calculate().difficulty_attributes(), &attrs)?;
+        info.comparisons += 1;
+    }
     // the gradual calculator stores the same windows (first value; converts go through the same builder)
     let mut dg = c.dspec.clone();
     dg.passed = None;
-    if let Ok(mut g) = rosu_pp::GradualDifficulty::new_with_mode(dg.build(c.target), &c.map, c.target) {
+    if let Ok(mut g) = rosu_pp::GradualDifficulty::new_with_mode(dg.build(c.target), &src, c.target) {
         if let Some(first) = g.next() {
             let bg = explicit.attributes().difficulty(&dg.build(c.target));
             let (gb, gh) = (bg.build(), bg.hit_windows());
@@ -315,7 +364,7 @@ pub fn property() -> Property {
             },
             SubCheck {
                 name: "calculators-agree",
-                rule: "tiny G-MAP maps (<=8 objects, all modes + converts) x wide G-DIFF. Oracle: OsuDifficultyAttributes.{ar, od(), hp, great/ok/meh_hit_window}, TaikoDifficultyAttributes.{great,ok}_hit_window, CatchDifficultyAttributes.ar are exactly map.attributes().difficulty(&D).build()/hit_windows() of the (converted) map, which in turn equal the builder configured through its own mods/clock_rate/ar/od/cs/hp setters with the same values (also when mods and clock rate are set before `map()`); the first gradual value stores the same AR / hit windows. Non-trivial: non-default settings, mode != mania.",
+                rule: "tiny G-MAP maps (<=8 objects, all modes + converts) x wide G-DIFF. Oracle: OsuDifficultyAttributes.{ar, od(), hp, great/ok/meh_hit_window}, TaikoDifficultyAttributes.{great,ok}_hit_window, CatchDifficultyAttributes.ar are exactly map.attributes().difficulty(&D).build()/hit_windows() of the (converted) map, which in turn equal the builder configured through its own mods/clock_rate/ar/od/cs/hp setters with the same values (also when mods and clock rate are set before `map()`), BeatmapAttributesBuilder::from(&map) and new().map(&map) equal map.attributes(); a third of the maps has its public ar/od/hp fields overwritten with out-of-range values after decoding; the first gradual value stores the same AR / hit windows; the attributes stored by Performance configured through its individual setters (generated order) equal Difficulty::calculate. Non-trivial: non-default settings, mode != mania.",
                 quick: 8000,
                 thorough: 120_000,
                 tape_len: 700,
